@@ -82,6 +82,67 @@ def _extend_crosshair():
 
     oi.ContainmentInterceptor.trace_op = trace_op
 
+    if os.environ.get("VF_SETORDER") == "1":
+        _install_set_order_model()
+
+
+def _install_set_order_model():
+    """S8: PYTHONHASHSEED model.  Sets created by pyxform code (set(...) calls and set
+    comprehensions, which CrossHair represents as list-backed ShellMutableSet objects) are
+    iterated in a solver-chosen order (rotation + optional swap of the first two) whenever the
+    iteration is started from a frame of /repo/pyxform: Python promises nothing about set order.
+    (The C tracer cannot intercept GET_ITER, so iteration of constant frozenset literals is
+    not covered; those are membership tests in pyxform.)"""
+    import sys as _sys
+
+    from crosshair import opcode_intercept as oi
+    from crosshair.simplestructs import ShellMutableSet
+    from crosshair.statespace import context_statespace
+    from crosshair.tracers import NoTracing, frame_stack_read, frame_stack_write
+    from crosshair.util import CrossHairValue
+
+    orig_iter = ShellMutableSet.__iter__
+
+    def __iter__(self):
+        f = _sys._getframe(1)
+        from vf import setorder
+
+        if not setorder.ACTIVE or not f.f_code.co_filename.startswith("/repo/pyxform"):
+            return orig_iter(self)
+        items = list(orig_iter(self))
+        n = len(items)
+        if 2 <= n <= 4:  # larger sets in pyxform are membership tables (bound, stated)
+            with NoTracing():
+                space = context_statespace()
+                k = 0
+                for r in range(1, n):
+                    if space.smt_fork(desc=f"setrot{r}_"):
+                        k = r
+                        break
+                swap = n >= 3 and space.smt_fork(desc="setswap_")
+            items = items[k:] + items[:k]
+            if swap:
+                items[0], items[1] = items[1], items[0]
+        return iter(items)
+
+    ShellMutableSet.__iter__ = __iter__
+
+    orig_add = oi.SetAddInterceptor.trace_op
+
+    def trace_op(self, frame, codeobj, codenum):
+        # set comprehensions in pyxform code: always use the list-backed representation
+        if frame.f_code.co_filename.startswith("/repo/pyxform"):
+            frame_op_arg = oi.frame_op_arg
+
+            set_offset = -(frame_op_arg(frame) + 1)
+            set_obj = frame_stack_read(frame, set_offset)
+            item = frame_stack_read(frame, -1)
+            if type(set_obj) is set and not isinstance(item, CrossHairValue):
+                frame_stack_write(frame, set_offset, ShellMutableSet(set_obj))
+        return orig_add(self, frame, codeobj, codenum)
+
+    oi.SetAddInterceptor.trace_op = trace_op
+
 
 def main(argv):
     modname, key, mode, timeout = argv[0], argv[1], argv[2], float(argv[3])
